@@ -205,3 +205,14 @@ Example C06_ex_early_publish :
   /\ r_trace r = [RegW; Wire [16; 2; 0]; Acc [16; 2; 0]; Wire [0]; Acc [0];
                   Wire [48; 4; 0; 1; 116; 120]; Acc [48; 4; 0; 1; 116; 120]; CbPublish 0; SetPublished 0; UnregW].
 Proof. vm_compute. split; reflexivity. Qed.
+
+(* ------------------------------------------------------------------------------------------
+   The same discipline one level up, on the session model with the output queue (Session2): for
+   ARBITRARY operation histories (publishes, acknowledgements, inbound traffic, reconnects, a transport
+   that refuses writes), between two reconnects the packets written are exactly, in order, the first
+   packets handed to the queue; packets are written only on an open, accepting socket; at the end of
+   every operation on such a socket the queue is empty; reconnect() drops the rest. *)
+From PahoV Require Import Session2.Model Session2.Check Session2.Statements Session2.FifoProofs.
+Theorem C06_session_queue_is_fifo : forall c ops, fifo_ok (optrace c ops) = true.
+Proof. exact fifo_proved. Qed.
+Print Assumptions C06_session_queue_is_fifo.
